@@ -4,10 +4,25 @@
 // chosen height a replica exports its state; an importer process is started
 // from that export and fed the remaining blocks.
 //
+// Every operation of the workload is a SIGNED sdk transaction (real accounts, account numbers and
+// sequences read from the node's own committed state, gas limits, fees in uosmo / a whitelisted fee
+// token / deliberately wrong) delivered through FinalizeBlock(Txs) + Commit: ante handlers (fee
+// deduction, x/txfees, x/smart-account circuit breaker, signature verification, sequence), message
+// execution in ExecModeFinalize and the post handlers (x/protorev, x/smart-account) all run.
+//
+// Roles (VERIF_ROLE):
+//
+//	replica    executes every block
+//	restarter  the same, but before the blocks listed in VERIF_RESTART_AT it throws its application
+//	           object away and opens a new one over the SAME database: every in-memory cache is cold
+//	proposer   the same, but every transaction also goes through CheckTx (application mempool) and
+//	           every block through PrepareProposal / ProcessProposal before FinalizeBlock
+//	importer   (VERIF_IMPORT_FILE) InitChain from the state another replica exported, then the rest
+//
 //	TestGenesis   writes a deterministic genesis document (run once)
 //	TestReplica   executes the workload; env: VERIF_GENESIS, VERIF_OUT, VERIF_SEED,
-//	              VERIF_BLOCKS, VERIF_REPLICA, VERIF_EXPORT_AT, VERIF_EXPORT_FILE,
-//	              VERIF_IMPORT_FILE (importer mode)
+//	              VERIF_BLOCKS, VERIF_REPLICA, VERIF_ROLE, VERIF_RESTART_AT, VERIF_EXPORT_AT,
+//	              VERIF_EXPORT_FILE, VERIF_IMPORT_FILE (importer mode)
 package replica
 
 import (
@@ -15,6 +30,7 @@ import (
 	"encoding/hex"
 	"encoding/json"
 	"fmt"
+	"io"
 	"math/rand"
 	"os"
 	"sort"
@@ -28,27 +44,35 @@ import (
 	cmtproto "github.com/cometbft/cometbft/proto/tendermint/types"
 	cosmosdb "github.com/cosmos/cosmos-db"
 	"github.com/cosmos/cosmos-sdk/baseapp"
+	"github.com/cosmos/cosmos-sdk/crypto/keys/secp256k1"
+	cryptotypes "github.com/cosmos/cosmos-sdk/crypto/types"
 	sims "github.com/cosmos/cosmos-sdk/testutil/sims"
 	sdk "github.com/cosmos/cosmos-sdk/types"
-	banktestutil "github.com/cosmos/cosmos-sdk/x/bank/testutil"
-	"github.com/cosmos/cosmos-sdk/x/crisis"
+	authtypes "github.com/cosmos/cosmos-sdk/x/auth/types"
 	banktypes "github.com/cosmos/cosmos-sdk/x/bank/types"
+	"github.com/cosmos/cosmos-sdk/x/crisis"
+	govtypes "github.com/cosmos/cosmos-sdk/x/gov/types"
+	govv1 "github.com/cosmos/cosmos-sdk/x/gov/types/v1"
+	paramproposal "github.com/cosmos/cosmos-sdk/x/params/types/proposal"
+	stakingtypes "github.com/cosmos/cosmos-sdk/x/staking/types"
 
 	"cosmossdk.io/log"
 
 	"github.com/osmosis-labs/osmosis/osmomath"
 	"github.com/osmosis-labs/osmosis/v31/app"
 	"github.com/osmosis-labs/osmosis/v31/app/apptesting"
-	cltypes "github.com/osmosis-labs/osmosis/v31/x/concentrated-liquidity/types"
 	clmodel "github.com/osmosis-labs/osmosis/v31/x/concentrated-liquidity/model"
+	cltypes "github.com/osmosis-labs/osmosis/v31/x/concentrated-liquidity/types"
 	"github.com/osmosis-labs/osmosis/v31/x/gamm/pool-models/balancer"
+	"github.com/osmosis-labs/osmosis/v31/x/gamm/pool-models/stableswap"
 	gammtypes "github.com/osmosis-labs/osmosis/v31/x/gamm/types"
 	incentivestypes "github.com/osmosis-labs/osmosis/v31/x/incentives/types"
 	lockuptypes "github.com/osmosis-labs/osmosis/v31/x/lockup/types"
 	poolmanagertypes "github.com/osmosis-labs/osmosis/v31/x/poolmanager/types"
+	protorevtypes "github.com/osmosis-labs/osmosis/v31/x/protorev/types"
 	tftypes "github.com/osmosis-labs/osmosis/v31/x/tokenfactory/types"
+	txfeestypes "github.com/osmosis-labs/osmosis/v31/x/txfees/types"
 
-	"verif/harness/apphelp"
 	"verif/harness/tracelog"
 )
 
@@ -58,6 +82,14 @@ var genesisTime = time.Unix(1_750_000_000, 0).UTC()
 
 var denoms = []string{"uosmo", "uion", "eth", "usdc", "atom"}
 var fundedDenoms = []string{"uosmo", "uion", "eth", "usdc", "atom", "stake"}
+
+const (
+	iUosmo = 0
+	iUion  = 1
+	iEth   = 2
+	iUsdc  = 3
+	iAtom  = 4
+)
 
 // ---------------------------------------------------------------------------
 // workload as data
@@ -73,12 +105,52 @@ type op struct {
 	E int    `json:"e"`
 }
 
-type block struct {
-	DtSec int64 `json:"dt"`
-	Ops   []op  `json:"ops"`
+// txT is one signed transaction: the messages of Ops (all signed by user Ops[0].U), a gas limit, a fee
+// mode and a sequence mode.
+type txT struct {
+	Ops []op  `json:"ops"`
+	Gas int64 `json:"gas"`
+	Fee int   `json:"fee"`
+	Seq int   `json:"seq"`
 }
 
+const (
+	feeMin      = 0 // ceil(0.03 * gas) uosmo: exactly the consensus minimum
+	feeGenerous = 1 // twice the minimum
+	feeZero     = 2 // no fee coin: refused by the ante handler
+	feeUnder    = 3 // one unit below the minimum: refused
+	feeUion     = 4 // paid in the whitelisted fee token uion (converted at pool 1's spot price)
+	feeAtom     = 5 // paid in the whitelisted fee token atom (pool 2)
+	feeEth      = 6 // paid in a token that is not a fee token: refused
+	feeTooLarge = 7 // more uosmo than the payer owns: refused (insufficient funds)
+
+	seqGood   = 0
+	seqAhead  = 1 // sequence + 3
+	seqReplay = 2 // sequence - 1 (or + 1 for a fresh account)
+
+	gasAmple = 6_000_000
+	gasAnte  = 25_000 // runs out inside the ante handler
+)
+
+type block struct {
+	DtSec int64 `json:"dt"`
+	Txs   []txT `json:"txs"`
+}
+
+// users 0..nUsers-1 are rich; users nUsers..nUsers+nPoor-1 can pay transaction fees but neither the pool
+// creation fee nor serious initial liquidity.
 const nUsers = 4
+const nPoor = 2
+
+const (
+	kBalancer = 0
+	kStable   = 1
+	kCL       = 2
+)
+
+var createKind = []string{"createBalancer", "createStable", "createCL"}
+
+func plain(o op) txT { return txT{Ops: []op{o}, Gas: gasAmple, Fee: feeMin, Seq: seqGood} }
 
 // genWorkload depends on the seed only (never on execution results): ids of locks,
 // pools, positions and gauges are referred to by creation order.
@@ -86,7 +158,7 @@ func genWorkload(seed int64, nblocks int) []block {
 	rng := rand.New(rand.NewSource(seed))
 	var bs []block
 	type poolT struct {
-		cl     bool
+		kind   int
 		d0, d1 int
 		at     int // block of creation
 	}
@@ -95,11 +167,19 @@ func genWorkload(seed int64, nblocks int) []block {
 	// workloads out of four therefore wait one block before the first position, so that export/import is
 	// exercised from early blocks on; the fourth keeps exhibiting the finding.
 	sameBlockPositions := seed%4 == 3
-	pools := []poolT{} // predicted: pool ids are 1 + index if every creation succeeds
+	// predicted: pool ids are 1 + index if every creation by a rich user succeeds and every other one fails.
+	// Pools 1 and 2 are the fee-token pools every replica creates before the first block.
+	pools := []poolT{{kBalancer, iUosmo, iUion, -1}, {kBalancer, iUosmo, iAtom, -1}}
 	locks, positions, tfdenoms := 0, 0, 0
-	usdc := 3
+	// pendingFail: type of the last pool creation that FAILED AFTER ITS HOOKS RAN (creator cannot pay the
+	// creation fee, or a later message of the same transaction failed) while the pool id it was given has not
+	// been handed out again.  The next successful creation takes another type: whatever the failed attempt left
+	// behind in memory under that id now describes the wrong kind of pool.
+	pendingFail := -1
+	focus, focusLeft := -1, 0
+	scriptPid := int64(0)
 	for b := 0; b < nblocks; b++ {
-		bl := block{}
+		bl := block{Txs: []txT{}}
 		switch r := rng.Intn(10); {
 		case r < 5:
 			bl.DtSec = int64(1 + rng.Intn(10))
@@ -118,11 +198,32 @@ func genWorkload(seed int64, nblocks int) []block {
 				bl.DtSec = 5 // and the block must not end an epoch by itself
 			}
 		}
+		addPool := func(kind, d0, d1 int) (int, int, int) {
+			if kind == pendingFail {
+				if kind == kCL {
+					kind = rng.Intn(2)
+				} else {
+					kind = kCL
+				}
+			}
+			if kind == kCL {
+				if d0 == iUsdc {
+					d0 = iEth
+				}
+				d1 = iUsdc
+			}
+			pools = append(pools, poolT{kind, d0, d1, b})
+			if pendingFail >= 0 {
+				focus, focusLeft = len(pools)-1, 8
+				pendingFail = -1
+			}
+			return kind, d0, d1
+		}
 		if b == 1 {
 			// a ladder of 14 distinct lock durations on one denom right at the start: its accumulation
 			// sum-tree (fan-out 10) has several nodes at every later export/import point
 			for i := 0; i < 14; i++ {
-				bl.Ops = append(bl.Ops, op{K: "lock", U: i % nUsers, D: 0, E: 1, A: int64(1000 + rng.Intn(100000)), B: int64(i)})
+				bl.Txs = append(bl.Txs, plain(op{K: "lock", U: i % nUsers, D: 0, E: 1, A: int64(1000 + rng.Intn(100000)), B: int64(i)}))
 				locks++
 			}
 		}
@@ -135,27 +236,63 @@ func genWorkload(seed int64, nblocks int) []block {
 			// 30 epochs.  Gauge 2 pays user 3 alone (the only "atom" lock), gauge 4 meets user 0 first (the shortest
 			// "uion" and "eth" locks are user 0's).  An export/import that re-orders the list therefore shows as
 			// different block events on the importer at every later distribution.
-			bl.Ops = append(bl.Ops,
-				op{K: "lockX", U: 0, D: 1, A: int64(5000 + b), B: 8}, op{K: "lockX", U: 0, D: 2, A: int64(7000 + b), B: 8},
-				op{K: "lockX", U: nUsers - 1, D: 4, A: 9000, B: 30},
-				op{K: "gaugeX", U: 1, D: 1, A: 1, B: 1, C: 0}, op{K: "gaugeX", U: 2, D: 4, A: 2, B: 30, C: 1},
-				op{K: "gaugeX", U: 0, D: 2, A: 3, B: 2, C: 2}, op{K: "gaugeX", U: 1, D: 1, A: 4, B: 30, C: 0})
+			for _, o := range []op{
+				{K: "lockX", U: 0, D: 1, A: int64(5000 + b), B: 8}, {K: "lockX", U: 0, D: 2, A: int64(7000 + b), B: 8},
+				{K: "lockX", U: nUsers - 1, D: 4, A: 9000, B: 30},
+				{K: "gaugeX", U: 1, D: 1, A: 1, B: 1, C: 0}, {K: "gaugeX", U: 2, D: 4, A: 2, B: 30, C: 1},
+				{K: "gaugeX", U: 0, D: 2, A: 3, B: 2, C: 2}, {K: "gaugeX", U: 1, D: 1, A: 4, B: 30, C: 0}} {
+				bl.Txs = append(bl.Txs, plain(o))
+			}
 			locks += 3
 		}
+		// Scripted pool-route fragment (consumes no randomness apart from addPool's type switch, which cannot
+		// trigger here): a pool creation that fails after its hooks ran, then the same pool id given to a pool of
+		// another type, then liquidity and swaps on it.
+		switch b {
+		case 2: // an under-funded account tries to create a balancer pool: fails at the creation fee, rolled back
+			bl.Txs = append(bl.Txs, plain(op{K: "createBalancer", U: nUsers, D: iUosmo, E: iUion, A: 5000, B: 1, C: 1}))
+			pendingFail = kBalancer
+		case 3: // ... somebody swaps against that id (no such pool), then the id goes to a concentrated pool
+			if pendingFail >= 0 {
+				bl.Txs = append(bl.Txs, plain(op{K: "swap", U: 3, D: iUosmo, E: iUion, A: 1000, C: int64(len(pools) + 1)}))
+			}
+			addPool(kCL, iEth, iUsdc)
+			scriptPid = int64(len(pools))
+			bl.Txs = append(bl.Txs, plain(op{K: "createCL", U: 1, D: iEth, E: iUsdc, A: 1, B: 3, C: 1}))
+		case 4:
+			pid := scriptPid
+			bl.Txs = append(bl.Txs, plain(op{K: "clPosition", U: 2, D: iEth, E: iUsdc, A: 900000, B: 65, C: pid}),
+				plain(op{K: "swap", U: 3, D: iEth, E: iUsdc, A: 5000, C: pid}))
+			positions++
+		case 5: // a stableswap creation that succeeds, but the LAST message of its transaction fails: all reverted
+			bl.Txs = append(bl.Txs, txT{Ops: []op{{K: "createStable", U: 2, D: iUion, E: iAtom, A: 70000, B: 1, C: 3}, {K: "sendFail", U: 2, V: 1}},
+				Gas: gasAmple, Fee: feeMin, Seq: seqGood},
+				plain(op{K: "delegate", U: 0, A: 1_000_000_000_000}))
+			pendingFail = kStable
+		case 6: // ... the id goes to a balancer pool; a parameter-change proposal lowers the pool creation fee
+			addPool(kBalancer, iUion, iAtom)
+			scriptPid = int64(len(pools))
+			bl.Txs = append(bl.Txs, plain(op{K: "createBalancer", U: 3, D: iUion, E: iAtom, A: 80000, B: 2, C: 4}),
+				plain(op{K: "govFee", U: 0, A: 400_000_000}))
+		case 7:
+			pid := scriptPid
+			bl.Txs = append(bl.Txs, plain(op{K: "vote", U: 0, C: 1}),
+				plain(op{K: "joinPool", U: 1, A: 3, C: pid}), plain(op{K: "swap", U: 2, D: iUion, E: iAtom, A: 4000, C: pid}))
+		}
 		for i := 0; i < n; i++ {
-			o := op{U: rng.Intn(nUsers), V: rng.Intn(nUsers), D: rng.Intn(len(denoms)), E: rng.Intn(len(denoms)),
+			o := op{U: rng.Intn(nUsers), V: rng.Intn(nUsers + nPoor), D: rng.Intn(len(denoms)), E: rng.Intn(len(denoms)),
 				A: int64(1 + rng.Intn(1000000)), B: int64(1 + rng.Intn(1000)), C: int64(rng.Intn(1000))}
 			if o.D == o.E {
 				o.E = (o.E + 1) % len(denoms)
 			}
 			freshCLExcluded := false
-			pickPool := func(wantCL, wantClassic bool) bool {
+			pickPool := func(o *op, wantCL, wantClassic bool) bool {
 				cands := []int{}
 				for pi, p := range pools {
-					if p.cl && freshCLExcluded && p.at == b && !sameBlockPositions {
+					if p.kind == kCL && freshCLExcluded && p.at == b && !sameBlockPositions {
 						continue
 					}
-					if (p.cl && wantCL) || (!p.cl && wantClassic) {
+					if (p.kind == kCL && wantCL) || (p.kind != kCL && wantClassic) {
 						cands = append(cands, pi)
 					}
 				}
@@ -163,6 +300,14 @@ func genWorkload(seed int64, nblocks int) []block {
 					return false
 				}
 				pi := cands[rng.Intn(len(cands))]
+				if focusLeft > 0 && rng.Intn(10) < 7 {
+					for _, c := range cands {
+						if c == focus {
+							pi = c
+							focusLeft--
+						}
+					}
+				}
 				o.C = int64(pi + 1)
 				o.D, o.E = pools[pi].d0, pools[pi].d1
 				if rng.Intn(2) == 0 && !wantCL {
@@ -170,7 +315,9 @@ func genWorkload(seed int64, nblocks int) []block {
 				}
 				return true
 			}
-			switch r := rng.Intn(100); {
+			tx := txT{Gas: gasAmple, Fee: feeMin, Seq: seqGood}
+			creating := false
+			switch r := rng.Intn(113); {
 			case r < 6:
 				o.K = "send"
 			case r < 24:
@@ -180,36 +327,34 @@ func genWorkload(seed int64, nblocks int) []block {
 				o.K = "beginUnlock"
 				o.C = int64(4 + rng.Intn(locks)) // never the three scripted locks of block 0
 			case r < 31:
-				o.K = "createBalancer"
-				pools = append(pools, poolT{false, o.D, o.E, b})
+				var kind int
+				kind, o.D, o.E = addPool(kBalancer, o.D, o.E)
+				o.K, creating = createKind[kind], true
 			case r < 36:
 				o.K = "joinPool"
-				if !pickPool(false, true) {
+				if !pickPool(&o, false, true) {
 					o.K = "send"
 				}
 			case r < 52:
 				o.K = "swap"
-				if !pickPool(true, true) {
+				if !pickPool(&o, true, true) {
 					o.K = "send"
 				} else if rng.Intn(2) == 0 {
 					o.D, o.E = o.E, o.D
 				}
 			case r < 56:
 				o.K = "exitPool"
-				if !pickPool(false, true) {
+				if !pickPool(&o, false, true) {
 					o.K = "send"
 				}
 			case r < 61:
-				o.K = "createCL"
-				if o.D == usdc {
-					o.D = 2
-				}
-				o.E = usdc
-				pools = append(pools, poolT{true, o.D, usdc, b})
+				var kind int
+				kind, o.D, o.E = addPool(kCL, o.D, o.E)
+				o.K, creating = createKind[kind], true
 			case r < 76:
 				o.K = "clPosition"
 				freshCLExcluded = true
-				if !pickPool(true, false) {
+				if !pickPool(&o, true, false) {
 					o.K = "send"
 				} else {
 					positions++
@@ -229,46 +374,218 @@ func genWorkload(seed int64, nblocks int) []block {
 				o.K = "tfBurn"
 			case r < 100 && locks > 0:
 				o.K = "gauge"
+			case r < 102:
+				var kind int
+				kind, o.D, o.E = addPool(kStable, o.D, o.E)
+				o.K, creating = createKind[kind], true
+			case r < 106:
+				// an under-funded account: the creation fails at the fee (or at the initial liquidity), after the hooks
+				kind := rng.Intn(3)
+				o.K, o.U = createKind[kind], nUsers+rng.Intn(nPoor)
+				if kind == kCL {
+					if o.D == iUsdc {
+						o.D = iEth
+					}
+					o.E = iUsdc
+				}
+				pendingFail = kind
+				creating = true
+			case r < 108:
+				// a creation that succeeds inside a transaction whose last message fails
+				kind := rng.Intn(3)
+				o.K = createKind[kind]
+				if kind == kCL {
+					if o.D == iUsdc {
+						o.D = iEth
+					}
+					o.E = iUsdc
+				}
+				tx.Ops = append(tx.Ops, o)
+				o = op{K: "sendFail", U: o.U, V: o.V}
+				pendingFail = kind
+				creating = true
+			case pendingFail >= 0:
+				// a swap against the pool id a failed creation was given (no such pool exists)
+				o.K = "swap"
+				o.C = int64(len(pools) + 1)
 			default:
 				o.K = "send"
 			}
-			bl.Ops = append(bl.Ops, o)
+			tx.Ops = append(tx.Ops, o)
+			if !creating {
+				// a few multi-message transactions; half of them end with a message that fails, which reverts the rest
+				if rng.Intn(7) == 0 {
+					for k, extra := 0, 1+rng.Intn(2); k < extra; k++ {
+						x := op{U: o.U, V: rng.Intn(nUsers + nPoor), D: rng.Intn(len(denoms)), E: rng.Intn(len(denoms)),
+							A: int64(1 + rng.Intn(1000000)), B: int64(1 + rng.Intn(1000)), C: int64(rng.Intn(1000))}
+						if x.D == x.E {
+							x.E = (x.E + 1) % len(denoms)
+						}
+						switch rng.Intn(3) {
+						case 0:
+							x.K = "send"
+						case 1:
+							x.K = "swap"
+							if !pickPool(&x, true, true) {
+								x.K = "send"
+							}
+						default:
+							x.K = "lock"
+							locks++
+						}
+						tx.Ops = append(tx.Ops, x)
+					}
+					if rng.Intn(2) == 0 {
+						tx.Ops = append(tx.Ops, op{K: "sendFail", U: o.U, V: o.V})
+					}
+				} else {
+					switch r := rng.Intn(100); {
+					case r < 70:
+					case r < 88:
+						tx.Gas = 1_500_000
+					case r < 96:
+						tx.Gas = 300_000
+					default:
+						tx.Gas = gasAnte
+					}
+					switch r := rng.Intn(100); {
+					case r < 62:
+					case r < 70:
+						tx.Fee = feeGenerous
+					case r < 80:
+						tx.Fee = feeUion
+					case r < 88:
+						tx.Fee = feeAtom
+					case r < 91:
+						tx.Fee = feeZero
+					case r < 94:
+						tx.Fee = feeUnder
+					case r < 97:
+						tx.Fee = feeEth
+					default:
+						tx.Fee = feeTooLarge
+					}
+					switch r := rng.Intn(100); {
+					case r < 94:
+					case r < 97:
+						tx.Seq = seqAhead
+					default:
+						tx.Seq = seqReplay
+					}
+				}
+			}
+			bl.Txs = append(bl.Txs, tx)
 		}
 		bs = append(bs, bl)
 	}
 	return bs
 }
 
+// probeProtorevImport is a scripted history (VERIF_WORKLOAD=protorev-import) for the export/import leg: a
+// concentrated uosmo/usdc pool becomes protorev's highest-liquidity pool of that pair (hook of the first position),
+// a balancer usdc/atom pool closes a profitable cycle with fee pool 2 (atom/uosmo), the state is exported after
+// block 2, and block 3 holds a swap on the balancer pool that protorev back-runs through the concentrated pool.
+func probeProtorevImport() []block {
+	return []block{
+		{DtSec: 5, Txs: []txT{plain(op{K: "createCL", U: 1, D: iUosmo, E: iUsdc, B: 3, C: 1})}},                        // pool 3
+		{DtSec: 5, Txs: []txT{plain(op{K: "clWide", U: 2, D: iUosmo, E: iUsdc, A: 1_000_000_000, C: 3})}},              // 1 uosmo = 2 usdc
+		{DtSec: 5, Txs: []txT{plain(op{K: "createBalancer", U: 3, D: iUsdc, E: iAtom, A: 1_000_000_000, B: 0, C: 0})}}, // pool 4: 1 usdc = 3 atom
+		{DtSec: 5, Txs: []txT{plain(op{K: "swap", U: 0, D: iAtom, E: iUsdc, A: 100_000, C: 4})}},
+		{DtSec: 5, Txs: []txT{plain(op{K: "send", U: 0, V: 1, D: iUion, A: 1})}},
+	}
+}
+
 // ---------------------------------------------------------------------------
+
+type account struct {
+	priv cryptotypes.PrivKey
+	addr sdk.AccAddress
+	num  uint64
+	seq  uint64
+}
+
+func newAccount(i int) *account {
+	priv := secp256k1.GenPrivKeyFromSecret([]byte(fmt.Sprintf("verif-c19-user-%d", i)))
+	return &account{priv: priv, addr: sdk.AccAddress(priv.PubKey().Address())}
+}
+
+func openApp(t *testing.T, db cosmosdb.DB) *app.OsmosisApp {
+	dir := scratchDir(t)
+	// crisis sits before most osmosis modules in the InitGenesis order, so its genesis-time
+	// invariant run sees half-initialised state; nodes start with the skip flag (as here)
+	var traceStore io.Writer
+	if p := os.Getenv("VERIF_TRACE_STORE"); p != "" { // triage: every KV operation of every store as JSON lines
+		f, err := os.OpenFile(p, os.O_CREATE|os.O_WRONLY|os.O_APPEND, 0o644)
+		if err != nil {
+			t.Fatal(err)
+		}
+		traceStore = f
+	}
+	return app.NewOsmosisApp(log.NewNopLogger(), db, traceStore, true, map[int64]bool{}, dir, 0,
+		sims.AppOptionsMap{crisis.FlagSkipGenesisInvariants: true}, app.EmptyWasmOpts, baseapp.SetChainID(chainID))
+}
 
 func TestGenesis(t *testing.T) {
 	out := os.Getenv("VERIF_GENESIS")
 	if out == "" {
 		t.Skip("VERIF_GENESIS not set")
 	}
-	dir := scratchDir(t)
-	a := app.NewOsmosisApp(log.NewNopLogger(), cosmosdb.NewMemDB(), nil, true, map[int64]bool{}, dir, 0,
-		sims.EmptyAppOptions{}, app.EmptyWasmOpts, baseapp.SetChainID(chainID))
+	a := openApp(t, cosmosdb.NewMemDB())
+	cdc := a.AppCodec()
 	gs := app.GenesisStateWithValSet(a)
 	// fund the workload's accounts in the genesis document itself
 	var bank banktypes.GenesisState
-	a.AppCodec().MustUnmarshalJSON(gs[banktypes.ModuleName], &bank)
-	for i := 0; i < nUsers; i++ {
+	cdc.MustUnmarshalJSON(gs[banktypes.ModuleName], &bank)
+	var auth authtypes.GenesisState
+	cdc.MustUnmarshalJSON(gs[authtypes.ModuleName], &auth)
+	accs := authtypes.GenesisAccounts{}
+	for i := 0; i < nUsers+nPoor; i++ {
 		coins := sdk.NewCoins()
-		for _, d := range fundedDenoms {
-			coins = coins.Add(sdk.NewCoin(d, osmomath.NewInt(1_000_000_000_000_000)))
+		if i < nUsers {
+			for _, d := range fundedDenoms {
+				coins = coins.Add(sdk.NewCoin(d, osmomath.NewInt(1_000_000_000_000_000)))
+			}
+		} else {
+			// enough for transaction fees and small pool assets, far less than the pool creation fee; no "eth" at all
+			coins = sdk.NewCoins(sdk.NewInt64Coin("uosmo", 300_000_000), sdk.NewInt64Coin("uion", 50_000_000),
+				sdk.NewInt64Coin("atom", 50_000_000), sdk.NewInt64Coin("usdc", 1_000_000))
 		}
-		bank.Balances = append(bank.Balances, banktypes.Balance{Address: apphelp.Acct(100 + i).String(), Coins: coins})
+		u := newAccount(i)
+		bank.Balances = append(bank.Balances, banktypes.Balance{Address: u.addr.String(), Coins: coins})
 		bank.Supply = bank.Supply.Add(coins...)
+		accs = append(accs, authtypes.NewBaseAccountWithAddress(u.addr))
 	}
 	bank.Balances = banktypes.SanitizeGenesisBalances(bank.Balances)
-	gs[banktypes.ModuleName] = a.AppCodec().MustMarshalJSON(&bank)
+	gs[banktypes.ModuleName] = cdc.MustMarshalJSON(&bank)
+	packed, err := authtypes.PackAccounts(accs)
+	if err != nil {
+		t.Fatal(err)
+	}
+	auth.Accounts = append(auth.Accounts, packed...)
+	gs[authtypes.ModuleName] = cdc.MustMarshalJSON(&auth)
 	// gauges distribute at the day epoch, so that a workload of a few weeks sees many distributions
 	var inc incentivestypes.GenesisState
-	a.AppCodec().MustUnmarshalJSON(gs[incentivestypes.ModuleName], &inc)
+	cdc.MustUnmarshalJSON(gs[incentivestypes.ModuleName], &inc)
 	inc.Params.DistrEpochIdentifier = "day"
 	inc.Params.MinValueForDistribution = incentivestypes.DefaultMinValueForDistr
-	gs[incentivestypes.ModuleName] = a.AppCodec().MustMarshalJSON(&inc)
+	gs[incentivestypes.ModuleName] = cdc.MustMarshalJSON(&inc)
+	// transaction fees are paid in uosmo (0.03 uosmo per unit of gas is the consensus minimum)
+	var txf txfeestypes.GenesisState
+	cdc.MustUnmarshalJSON(gs[txfeestypes.ModuleName], &txf)
+	txf.Basedenom = "uosmo"
+	gs[txfeestypes.ModuleName] = cdc.MustMarshalJSON(&txf)
+	// protorev pays a developer account (as on the live chain); without one its day-epoch hook fails before it
+	// refreshes the highest-liquidity pool index
+	var pr protorevtypes.GenesisState
+	cdc.MustUnmarshalJSON(gs[protorevtypes.ModuleName], &pr)
+	pr.DeveloperAddress = newAccount(nUsers - 1).addr.String()
+	gs[protorevtypes.ModuleName] = cdc.MustMarshalJSON(&pr)
+	// governance decides within the hour, so that a parameter change lands inside the workload
+	var gov govv1.GenesisState
+	cdc.MustUnmarshalJSON(gs[govtypes.ModuleName], &gov)
+	vp, evp := time.Hour, 30*time.Minute
+	gov.Params.VotingPeriod, gov.Params.ExpeditedVotingPeriod = &vp, &evp
+	gs[govtypes.ModuleName] = cdc.MustMarshalJSON(&gov)
 	bz, err := json.Marshal(gs)
 	if err != nil {
 		t.Fatal(err)
@@ -278,10 +595,22 @@ func TestGenesis(t *testing.T) {
 	}
 }
 
+// node is one full application instance over its own database.
 type node struct {
 	apptesting.KeeperTestHelper
-	users []sdk.AccAddress
-	tf    []string
+	t         *testing.T
+	db        cosmosdb.DB
+	height    int64     // height of the next block
+	now       time.Time // time of the next block
+	committed bool      // false between InitChain and the first Commit
+	users     []*account
+	tf        []string
+	valAddr   string
+	// what the execution reached (non-vacuity)
+	cnt      map[string]int
+	failedAt map[uint64]int // pool id -> type of a creation that failed after the ante handler while that id was next
+	fts      map[uint64]bool
+	nextPool uint64
 }
 
 func newNode(t *testing.T, appState []byte, initialHeight int64, vals []abci.ValidatorUpdate, at time.Time) (nn *node, initErr error) {
@@ -290,13 +619,9 @@ func newNode(t *testing.T, appState []byte, initialHeight int64, vals []abci.Val
 			nn, initErr = nil, fmt.Errorf("panic in InitChain: %v", r)
 		}
 	}()
-	n := &node{}
+	n := &node{t: t, db: cosmosdb.NewMemDB(), height: initialHeight, now: at, cnt: map[string]int{}, failedAt: map[uint64]int{}, fts: map[uint64]bool{}}
 	n.SetT(t)
-	dir := scratchDir(t)
-	// crisis sits before most osmosis modules in the InitGenesis order, so its genesis-time
-	// invariant run sees half-initialised state; nodes start with the skip flag (as here)
-	n.App = app.NewOsmosisApp(log.NewNopLogger(), cosmosdb.NewMemDB(), nil, true, map[int64]bool{}, dir, 0,
-		sims.AppOptionsMap{crisis.FlagSkipGenesisInvariants: true}, app.EmptyWasmOpts, baseapp.SetChainID(chainID))
+	n.App = openApp(t, n.db)
 	_, err := n.App.InitChain(&abci.RequestInitChain{
 		Validators:      vals,
 		ConsensusParams: sims.DefaultConsensusParams,
@@ -308,11 +633,33 @@ func newNode(t *testing.T, appState []byte, initialHeight int64, vals []abci.Val
 	if err != nil {
 		return nil, fmt.Errorf("InitChain: %v", err)
 	}
-	n.Ctx = n.App.BaseApp.NewContextLegacy(false, cmtproto.Header{Height: initialHeight, ChainID: chainID, Time: at})
-	for i := 0; i < nUsers; i++ {
-		n.users = append(n.users, apphelp.Acct(100+i))
+	n.Ctx = n.queryCtx()
+	for i := 0; i < nUsers+nPoor; i++ {
+		n.users = append(n.users, newAccount(i))
 	}
 	return n, nil
+}
+
+// restart models a process restart: everything that lives in memory is dropped and a new application object
+// is opened over the same database at the last committed height.
+func (n *node) restart() {
+	n.App = openApp(n.t, n.db)
+	if got := n.App.LastBlockHeight(); got != n.height-1 {
+		n.t.Fatalf("restart resumed at height %d, want %d", got, n.height-1)
+	}
+	n.cnt["restarts"]++
+	if n.cnt["failedPoolCreations"] > 0 {
+		n.cnt["restartsAfterFailedCreation"]++
+	}
+}
+
+// queryCtx reads the state the next block will start from.
+func (n *node) queryCtx() sdk.Context {
+	hdr := cmtproto.Header{Height: n.height, ChainID: chainID, Time: n.now}
+	if !n.committed {
+		return n.App.BaseApp.NewContextLegacy(false, hdr)
+	}
+	return n.App.BaseApp.NewUncachedContext(false, hdr)
 }
 
 // dumpModule keeps the canonical JSON of a module export when VERIF_DUMP_DIR is set (triage of differences)
@@ -343,41 +690,280 @@ func eventsBytes(evs []abci.Event) []byte {
 	return out
 }
 
-// deliver runs one message like a transaction and returns a digest of what a client would see.
-func (n *node) deliver(msg sdk.Msg) (string, bool) {
-	if vb, ok := msg.(interface{ ValidateBasic() error }); ok {
-		if err := vb.ValidateBasic(); err != nil {
-			return hashOf([]byte("invalid"), []byte(err.Error())), false
+func (n *node) feeOf(tx txT) sdk.Coins {
+	min := (tx.Gas*3 + 99) / 100
+	switch tx.Fee {
+	case feeGenerous:
+		return sdk.NewCoins(sdk.NewInt64Coin("uosmo", 2*min))
+	case feeZero:
+		return sdk.NewCoins()
+	case feeUnder:
+		return sdk.NewCoins(sdk.NewInt64Coin("uosmo", min-1))
+	case feeUion:
+		return sdk.NewCoins(sdk.NewInt64Coin("uion", 20*min))
+	case feeAtom:
+		return sdk.NewCoins(sdk.NewInt64Coin("atom", 20*min))
+	case feeEth:
+		return sdk.NewCoins(sdk.NewInt64Coin("eth", 20*min))
+	case feeTooLarge:
+		return sdk.NewCoins(sdk.NewInt64Coin("uosmo", 5_000_000_000_000_000))
+	}
+	return sdk.NewCoins(sdk.NewInt64Coin("uosmo", min))
+}
+
+// antePredicted: will the ante handler accept the transaction (and bump the signer's sequence)?
+func antePredicted(tx txT) bool {
+	return tx.Seq == seqGood && tx.Gas > 100_000 && (tx.Fee == feeMin || tx.Fee == feeGenerous || tx.Fee == feeUion || tx.Fee == feeAtom)
+}
+
+// buildTxs signs the block's transactions with the account numbers and sequences of the node's OWN committed
+// state (an importer reads them from the imported state).
+func (n *node) buildTxs(seed int64, bi int, bl block) [][]byte {
+	ctx := n.queryCtx()
+	for _, u := range n.users {
+		acc := n.App.AccountKeeper.GetAccount(ctx, u.addr)
+		if acc == nil {
+			n.t.Fatalf("account %s missing", u.addr)
+		}
+		u.num, u.seq = acc.GetAccountNumber(), acc.GetSequence()
+	}
+	n.nextPool = n.App.PoolManagerKeeper.GetNextPoolId(ctx)
+	if n.valAddr == "" {
+		vals, err := n.App.StakingKeeper.GetAllValidators(ctx)
+		if err != nil || len(vals) == 0 {
+			n.t.Fatalf("no validator: %v", err)
+		}
+		n.valAddr = vals[0].OperatorAddress
+	}
+	cfg := n.App.GetTxConfig()
+	out := [][]byte{}
+	for ti, tx := range bl.Txs {
+		msgs := []sdk.Msg{}
+		for _, o := range tx.Ops {
+			msgs = append(msgs, n.msgOf(o))
+		}
+		signer := n.users[tx.Ops[0].U]
+		seq := signer.seq
+		switch tx.Seq {
+		case seqAhead:
+			seq += 3
+		case seqReplay:
+			if seq > 0 {
+				seq--
+			} else {
+				seq++
+			}
+		}
+		stx, err := sims.GenSignedMockTx(rand.New(rand.NewSource(seed*1_000_003+int64(bi)*1009+int64(ti))), cfg, msgs, n.feeOf(tx),
+			uint64(tx.Gas), chainID, []uint64{signer.num}, []uint64{seq}, signer.priv)
+		if err != nil {
+			n.t.Fatalf("sign: %v", err)
+		}
+		bz, err := cfg.TxEncoder()(stx)
+		if err != nil {
+			n.t.Fatalf("encode: %v", err)
+		}
+		out = append(out, bz)
+		if antePredicted(tx) {
+			signer.seq++
 		}
 	}
-	h := n.App.GetBaseApp().MsgServiceRouter().Handler(msg)
-	if h == nil {
-		panic(fmt.Sprintf("no handler for %T", msg))
-	}
-	cc, write := n.Ctx.WithEventManager(sdk.NewEventManager()).CacheContext()
-	var res *sdk.Result
-	var err error
-	func() {
-		defer func() {
-			if r := recover(); r != nil {
-				err = fmt.Errorf("panic: %v", r)
-			}
-		}()
-		res, err = h(cc, msg)
+	return out
+}
+
+// propose pushes the block's transactions through the mempool and the proposal handlers first (a validator
+// that proposes): CheckTx, PrepareProposal, ProcessProposal work on branches of the committed state and must
+// leave no trace in what FinalizeBlock computes.
+func (n *node) propose(txs [][]byte) {
+	defer func() {
+		if r := recover(); r != nil {
+			n.cnt["proposalPanics"]++
+		}
 	}()
-	if err != nil {
-		return hashOf([]byte("err"), []byte(err.Error())), false
+	for _, bz := range txs {
+		if res, err := n.App.CheckTx(&abci.RequestCheckTx{Tx: bz, Type: abci.CheckTxType_New}); err == nil && res.Code == 0 {
+			n.cnt["checkTxOk"]++
+		} else {
+			n.cnt["checkTxRefused"]++
+		}
 	}
-	write()
-	return hashOf([]byte("ok"), res.Data, eventsBytes(res.Events), eventsBytes(cc.EventManager().ABCIEvents())), true
+	if res, err := n.App.PrepareProposal(&abci.RequestPrepareProposal{MaxTxBytes: 4_000_000, Txs: txs, Height: n.height, Time: n.now}); err == nil {
+		n.cnt["proposalsPrepared"]++
+		n.cnt["proposalTxs"] += len(res.Txs)
+	}
+	if res, err := n.App.ProcessProposal(&abci.RequestProcessProposal{Txs: txs, Height: n.height, Time: n.now}); err == nil && res.Status == abci.ResponseProcessProposal_ACCEPT {
+		n.cnt["proposalsAccepted"]++
+	}
+}
+
+type blockResult struct {
+	appHash, evHash string
+	txs, ng         []string // per transaction: digest of the full result / of the result without the gas used
+	stale           []int    // 1-based indexes of transactions that name the pool id of a reverted creation
+	backrun         []int    // 1-based indexes of transactions the protorev post handler back-ran
+	oks, ante       int
+	multi, multiRev int
+}
+
+// runBlock delivers the transactions through FinalizeBlock and commits; returns what a client would see.
+func (n *node) runBlock(bi int, bl block, txs [][]byte) blockResult {
+	resp, err := n.App.FinalizeBlock(&abci.RequestFinalizeBlock{Height: n.height, Time: n.now, Txs: txs})
+	if err != nil {
+		panic(fmt.Sprintf("FinalizeBlock: %v", err))
+	}
+	if _, err := n.App.Commit(); err != nil {
+		panic(err)
+	}
+	n.committed = true
+	br := blockResult{appHash: hex.EncodeToString(n.App.LastCommitID().Hash), evHash: hashOf(eventsBytes(resp.Events)), txs: []string{}, ng: []string{}, stale: []int{}, backrun: []int{}}
+	if len(resp.TxResults) != len(txs) {
+		panic("FinalizeBlock returned a different number of results")
+	}
+	for ti, r := range resp.TxResults {
+		tx := bl.Txs[ti]
+		br.txs = append(br.txs, hashOf([]byte(fmt.Sprintf("%d/%s/%d/%d", r.Code, r.Codespace, r.GasWanted, r.GasUsed)), r.Data, eventsBytes(r.Events)))
+		br.ng = append(br.ng, hashOf([]byte(fmt.Sprintf("%d/%s/%d", r.Code, r.Codespace, r.GasWanted)), r.Data, eventsBytes(r.Events)))
+		for _, o := range tx.Ops {
+			switch o.K {
+			case "swap", "joinPool", "exitPool", "clPosition":
+				if _, was := n.failedAt[uint64(o.C)]; was && (len(br.stale) == 0 || br.stale[len(br.stale)-1] != ti+1) {
+					br.stale = append(br.stale, ti+1)
+				}
+			}
+		}
+		for _, e := range r.Events {
+			if e.Type == "protorev_backrun" {
+				br.backrun = append(br.backrun, ti+1)
+				n.cnt["protorevBackruns"]++
+				break
+			}
+		}
+		ok := r.Code == 0
+		anteFailed := !ok && len(r.Events) == 0 // refused before any message ran: no events at all
+		if ok {
+			br.oks++
+		}
+		if anteFailed {
+			br.ante++
+			n.cnt["anteFailures"]++
+		}
+		if len(tx.Ops) > 1 {
+			br.multi++
+			if !ok && !anteFailed {
+				br.multiRev++
+			}
+		}
+		if tx.Fee == feeUion || tx.Fee == feeAtom {
+			if !anteFailed {
+				n.cnt["feesPaidInFeeToken"]++
+			}
+		}
+		if !ok && r.Codespace == "sdk" && r.Code == 11 && !anteFailed {
+			n.cnt["outOfGasInMessages"]++
+		}
+		n.track(tx, ok, anteFailed)
+		if os.Getenv("VERIF_DEBUG") != "" {
+			kinds := []string{}
+			for _, o := range tx.Ops {
+				kinds = append(kinds, fmt.Sprintf("%s(u%d,c%d)", o.K, o.U, o.C))
+			}
+			lg := r.Log
+			if i := strings.IndexByte(lg, '\n'); i >= 0 {
+				lg = lg[:i]
+			}
+			if len(lg) > 160 {
+				lg = lg[:160]
+			}
+			fmt.Printf("DEBUG blk=%d tx=%d %v gas=%d fee=%d seq=%d -> code=%d/%s used=%d ante=%v %s\n", bi, ti, kinds, tx.Gas, tx.Fee, tx.Seq,
+				r.Code, r.Codespace, r.GasUsed, anteFailed, lg)
+		}
+	}
+	if os.Getenv("VERIF_DEBUG_PROTOREV") != "" {
+		ctx := n.App.BaseApp.NewUncachedContext(false, cmtproto.Header{Height: n.height, ChainID: chainID, Time: n.now})
+		line := fmt.Sprintf("DEBUGPR blk=%d", bi)
+		for _, d := range denoms[1:] {
+			id, err := n.App.ProtoRevKeeper.GetPoolForDenomPair(ctx, "uosmo", d)
+			if err != nil {
+				line += fmt.Sprintf(" %s:-", d)
+			} else {
+				line += fmt.Sprintf(" %s:%d", d, id)
+			}
+		}
+		for _, e := range n.App.EpochsKeeper.AllEpochInfos(ctx) {
+			if e.Identifier == "day" {
+				line += fmt.Sprintf(" day=%d", e.CurrentEpoch)
+			}
+		}
+		fmt.Println(line)
+	}
+	if os.Getenv("VERIF_DEBUG_EVENTS") != "" {
+		for ti, r := range resp.TxResults {
+			for _, e := range r.Events {
+				fmt.Printf("DEBUGTXEV blk=%d tx=%d %s %v\n", bi, ti, e.Type, e.Attributes)
+			}
+		}
+		for _, e := range resp.Events {
+			if e.Type == "distribution" || e.Type == "token_swapped" || strings.Contains(e.Type, "proposal") {
+				fmt.Printf("DEBUGEV h=%d %s %v\n", n.height, e.Type, e.Attributes)
+			}
+		}
+	}
+	n.height++
+	n.now = n.now.Add(time.Duration(bl.DtSec) * time.Second)
+	return br
+}
+
+// track follows pool ids through failed and successful creations (non-vacuity counters only).
+func (n *node) track(tx txT, ok, anteFailed bool) {
+	first := tx.Ops[0]
+	kind := -1
+	for k, name := range createKind {
+		if first.K == name {
+			kind = k
+		}
+	}
+	switch {
+	case kind >= 0 && ok:
+		id := n.nextPool
+		n.nextPool++
+		if t, was := n.failedAt[id]; was {
+			if t != kind {
+				n.cnt["failedThenSucceededPoolIds"]++
+				n.fts[id] = true
+			}
+			delete(n.failedAt, id)
+		}
+	case kind >= 0 && !anteFailed:
+		n.failedAt[n.nextPool] = kind
+		n.cnt["failedPoolCreations"]++
+	case ok:
+		for _, o := range tx.Ops {
+			switch o.K {
+			case "swap", "joinPool", "exitPool", "clPosition":
+				if n.fts[uint64(o.C)] {
+					n.cnt["opsOnFailedThenSucceededPools"]++
+				}
+			}
+		}
+	default:
+		for _, o := range tx.Ops {
+			if o.K == "swap" && !anteFailed {
+				if _, was := n.failedAt[uint64(o.C)]; was {
+					n.cnt["swapsOnIdOfFailedCreation"]++
+				}
+			}
+		}
+	}
 }
 
 func (n *node) msgOf(o op) sdk.Msg {
-	u, v := n.users[o.U], n.users[o.V]
+	u, v := n.users[o.U].addr, n.users[o.V].addr
 	d, e := denoms[o.D], denoms[o.E]
 	switch o.K {
 	case "send":
 		return banktypes.NewMsgSend(u, v, sdk.NewCoins(sdk.NewCoin(d, osmomath.NewInt(o.A))))
+	case "sendFail": // more than anybody owns
+		return banktypes.NewMsgSend(u, v, sdk.NewCoins(sdk.NewCoin("eth", osmomath.NewInt(4_000_000_000_000_000))))
 	case "lock":
 		d = denoms[1+(o.D%4)/3] // mostly one denom: many distinct durations on it
 		return lockuptypes.NewMsgLockTokens(u, time.Duration(8+o.B%25)*time.Hour, sdk.NewCoins(sdk.NewCoin(d, osmomath.NewInt(o.A))))
@@ -386,7 +972,7 @@ func (n *node) msgOf(o op) sdk.Msg {
 	case "gaugeX": // explicit denom index D, epochs B, duration index C
 		return &incentivestypes.MsgCreateGauge{IsPerpetual: false, Owner: u.String(),
 			DistributeTo: lockuptypes.QueryCondition{LockQueryType: lockuptypes.ByDuration, Denom: denoms[o.D], Duration: []time.Duration{time.Hour, 3 * time.Hour, 7 * time.Hour}[o.C%3]},
-			Coins:        sdk.NewCoins(sdk.NewCoin("uosmo", osmomath.NewInt(3_000_000_000+o.A*1000))), StartTime: n.Ctx.BlockTime(),
+			Coins:        sdk.NewCoins(sdk.NewCoin("uosmo", osmomath.NewInt(3_000_000_000+o.A*1000))), StartTime: n.now,
 			NumEpochsPaidOver: uint64(o.B)}
 	case "beginUnlock":
 		return lockuptypes.NewMsgBeginUnlocking(u, uint64(o.C), nil)
@@ -394,6 +980,10 @@ func (n *node) msgOf(o op) sdk.Msg {
 		m := balancer.NewMsgCreateBalancerPool(u, balancer.PoolParams{SwapFee: osmomath.NewDecWithPrec(o.C%50, 3), ExitFee: osmomath.ZeroDec()},
 			[]balancer.PoolAsset{{Weight: osmomath.NewInt(1 + o.B%9), Token: sdk.NewCoin(d, osmomath.NewInt(1000+o.A))},
 				{Weight: osmomath.NewInt(1 + o.C%9), Token: sdk.NewCoin(e, osmomath.NewInt(1000+o.A*3))}}, "")
+		return &m
+	case "createStable":
+		m := stableswap.NewMsgCreateStableswapPool(u, stableswap.PoolParams{SwapFee: osmomath.NewDecWithPrec(o.C%50, 3), ExitFee: osmomath.ZeroDec()},
+			sdk.NewCoins(sdk.NewCoin(d, osmomath.NewInt(1000+o.A)), sdk.NewCoin(e, osmomath.NewInt(1000+o.A*3))), []uint64{1, 1}, "")
 		return &m
 	case "joinPool":
 		return &gammtypes.MsgJoinPool{Sender: u.String(), PoolId: uint64(o.C), ShareOutAmount: osmomath.NewInt(o.A).MulRaw(1_000_000_000_000),
@@ -415,6 +1005,10 @@ func (n *node) msgOf(o op) sdk.Msg {
 		return &cltypes.MsgCreatePosition{PoolId: uint64(o.C), Sender: u.String(), LowerTick: lo, UpperTick: lo + (1+o.A%150)*1000,
 			TokensProvided:  sdk.NewCoins(sdk.NewCoin(d, osmomath.NewInt(o.A)), sdk.NewCoin(e, osmomath.NewInt(o.A*2))),
 			TokenMinAmount0: osmomath.ZeroInt(), TokenMinAmount1: osmomath.ZeroInt()}
+	case "clWide": // a position around the initial price amount(e)/amount(d) = 2
+		return &cltypes.MsgCreatePosition{PoolId: uint64(o.C), Sender: u.String(), LowerTick: -1_000_000, UpperTick: 2_000_000,
+			TokensProvided:  sdk.NewCoins(sdk.NewCoin(d, osmomath.NewInt(o.A)), sdk.NewCoin(e, osmomath.NewInt(o.A*2))),
+			TokenMinAmount0: osmomath.ZeroInt(), TokenMinAmount1: osmomath.ZeroInt()}
 	case "clWithdraw":
 		return &cltypes.MsgWithdrawPosition{PositionId: uint64(o.C), Sender: u.String(), LiquidityAmount: osmomath.NewDec(o.A)}
 	case "clCollect":
@@ -433,8 +1027,26 @@ func (n *node) msgOf(o op) sdk.Msg {
 		d = denoms[1+o.D%2]
 		return &incentivestypes.MsgCreateGauge{IsPerpetual: o.B%2 == 0, Owner: u.String(),
 			DistributeTo: lockuptypes.QueryCondition{LockQueryType: lockuptypes.ByDuration, Denom: d, Duration: []time.Duration{time.Hour, 3 * time.Hour, 7 * time.Hour}[o.C%3]},
-			Coins:        sdk.NewCoins(sdk.NewCoin("uosmo", osmomath.NewInt(1_000_000_000+o.A*1000))), StartTime: n.Ctx.BlockTime(),
+			Coins:        sdk.NewCoins(sdk.NewCoin("uosmo", osmomath.NewInt(1_000_000_000+o.A*1000))), StartTime: n.now,
 			NumEpochsPaidOver: uint64(1 + o.B%2*(o.C%5))}
+	case "delegate":
+		return stakingtypes.NewMsgDelegate(u.String(), n.valAddr, sdk.NewCoin("stake", osmomath.NewInt(o.A)))
+	case "govFee": // governance changes the pool creation fee (a legacy parameter-change proposal)
+		content := paramproposal.NewParameterChangeProposal("pool creation fee", "lower the pool creation fee",
+			[]paramproposal.ParamChange{{Subspace: poolmanagertypes.ModuleName, Key: string(poolmanagertypes.KeyPoolCreationFee),
+				Value: fmt.Sprintf(`[{"denom":"uosmo","amount":"%d"}]`, o.A)}})
+		lc, err := govv1.NewLegacyContent(content, authtypes.NewModuleAddress(govtypes.ModuleName).String())
+		if err != nil {
+			panic(err)
+		}
+		m, err := govv1.NewMsgSubmitProposal([]sdk.Msg{lc}, sdk.NewCoins(sdk.NewInt64Coin("stake", 10_000_000)), u.String(), "",
+			"pool creation fee", "lower the pool creation fee", false)
+		if err != nil {
+			panic(err)
+		}
+		return m
+	case "vote":
+		return govv1.NewMsgVote(u, uint64(o.C), govv1.OptionYes, "")
 	}
 	panic("unknown op " + o.K)
 }
@@ -455,36 +1067,6 @@ func scratchDir(t *testing.T) string {
 		}
 	})
 	return dir
-}
-
-// endBlock finalizes and commits the current block, then opens the next one dt later.
-func (n *node) endBlock(dt time.Duration) (appHash, evHash string) {
-	resp, err := n.App.FinalizeBlock(&abci.RequestFinalizeBlock{Height: n.Ctx.BlockHeight(), Time: n.Ctx.BlockTime()})
-	if err != nil {
-		panic(fmt.Sprintf("FinalizeBlock: %v", err))
-	}
-	if _, err := n.App.Commit(); err != nil {
-		panic(err)
-	}
-	appHash = hex.EncodeToString(n.App.LastCommitID().Hash)
-	evHash = hashOf(eventsBytes(resp.Events))
-	if os.Getenv("VERIF_DEBUG_EVENTS") != "" {
-		ids := []uint64{}
-		for _, g := range n.App.IncentivesKeeper.GetActiveGauges(n.Ctx) {
-			ids = append(ids, g.Id)
-		}
-		fmt.Printf("DEBUGEV h=%d active=%v\n", n.Ctx.BlockHeight(), ids)
-		for _, e := range resp.Events {
-			if e.Type == "distribution" {
-				fmt.Printf("DEBUGEV h=%d %s %v\n", n.Ctx.BlockHeight(), e.Type, e.Attributes)
-			}
-		}
-	}
-	header := n.Ctx.BlockHeader()
-	header.Time = header.Time.Add(dt)
-	header.Height++
-	n.Ctx = n.App.BaseApp.NewUncachedContext(false, header)
-	return appHash, evHash
 }
 
 func (n *node) exportModules(tag string) (map[string]string, []byte, []abci.ValidatorUpdate, int64) {
@@ -516,10 +1098,37 @@ func (n *node) exportModules(tag string) (map[string]string, []byte, []abci.Vali
 	return res, ex.AppState, vals, ex.Height
 }
 
+// dumpKV writes every key/value pair of every store (triage of differences in the raw state; VERIF_DUMP_KV)
+func (n *node) dumpKV(path string) {
+	ctx := n.queryCtx()
+	f, err := os.Create(path)
+	if err != nil {
+		panic(err)
+	}
+	defer f.Close()
+	names := []string{}
+	keys := n.App.GetKVStoreKey()
+	for name := range keys {
+		names = append(names, name)
+	}
+	sort.Strings(names)
+	for _, name := range names {
+		it := ctx.KVStore(keys[name]).Iterator(nil, nil)
+		for ; it.Valid(); it.Next() {
+			fmt.Fprintf(f, "%s %x %x\n", name, it.Key(), it.Value())
+		}
+		it.Close()
+	}
+}
+
 // stats: what the workload actually reached (non-vacuity of the determinism check)
 func (n *node) stats() map[string]int {
+	ctx := n.queryCtx()
 	st := map[string]int{}
-	gs := n.App.IncentivesKeeper.GetGauges(n.Ctx)
+	for k, v := range n.cnt {
+		st[k] = v
+	}
+	gs := n.App.IncentivesKeeper.GetGauges(ctx)
 	for _, g := range gs {
 		if g.DistributeTo.LockQueryType == lockuptypes.ByDuration {
 			st["lockGauges"]++
@@ -531,13 +1140,13 @@ func (n *node) stats() map[string]int {
 	// stored order of the active gauge references (concatenated per start time): out of id order once a
 	// gauge left the middle of a list shared with others
 	prev := uint64(0)
-	for _, g := range n.App.IncentivesKeeper.GetActiveGauges(n.Ctx) {
+	for _, g := range n.App.IncentivesKeeper.GetActiveGauges(ctx) {
 		if g.Id < prev {
 			st["maxActiveGaugeRefsOutOfIdOrder"] = 1
 		}
 		prev = g.Id
 	}
-	locks, _ := n.App.LockupKeeper.GetPeriodLocks(n.Ctx)
+	locks, _ := n.App.LockupKeeper.GetPeriodLocks(ctx)
 	st["locks"] = len(locks)
 	dd := map[string]map[time.Duration]bool{}
 	for _, l := range locks {
@@ -553,22 +1162,25 @@ func (n *node) stats() map[string]int {
 			st["maxDistinctLockDurationsPerDenom"] = len(m)
 		}
 	}
-	st["pools"] = int(n.App.PoolManagerKeeper.GetNextPoolId(n.Ctx)) - 1
-	st["clPositions"] = int(n.App.ConcentratedLiquidityKeeper.GetNextPositionId(n.Ctx)) - 1
+	st["pools"] = int(n.App.PoolManagerKeeper.GetNextPoolId(ctx)) - 1
+	st["clPositions"] = int(n.App.ConcentratedLiquidityKeeper.GetNextPositionId(ctx)) - 1
 	st["factoryDenoms"] = len(n.tf)
-	for _, e := range n.App.EpochsKeeper.AllEpochInfos(n.Ctx) {
+	for _, e := range n.App.EpochsKeeper.AllEpochInfos(ctx) {
 		st["epoch:"+e.Identifier] = int(e.CurrentEpoch)
+	}
+	if fee := n.App.PoolManagerKeeper.GetParams(ctx).PoolCreationFee; !fee.Equal(poolmanagertypes.DefaultParams().PoolCreationFee) {
+		st["poolCreationFeeChangedByGovernance"] = 1
 	}
 	return st
 }
 
 type exportFile struct {
-	AppState json.RawMessage        `json:"app_state"`
-	Vals     [][]byte               `json:"vals"` // proto-marshalled abci.ValidatorUpdate
-	Height   int64                  `json:"height"`
-	TimeUnix int64                  `json:"time_unix"`
-	Block    int                    `json:"block"` // index of the next workload block
-	TF       []string               `json:"tf"`
+	AppState json.RawMessage `json:"app_state"`
+	Vals     [][]byte        `json:"vals"` // proto-marshalled abci.ValidatorUpdate
+	Height   int64           `json:"height"`
+	TimeUnix int64           `json:"time_unix"`
+	Block    int             `json:"block"` // index of the next workload block
+	TF       []string        `json:"tf"`
 }
 
 func TestReplica(t *testing.T) {
@@ -579,15 +1191,23 @@ func TestReplica(t *testing.T) {
 	seed := tracelog.EnvInt("VERIF_SEED", 1)
 	nblocks := int(tracelog.EnvInt("VERIF_BLOCKS", 30))
 	replica := int(tracelog.EnvInt("VERIF_REPLICA", 1))
-	exportAt := map[int]bool{}
-	for _, f := range strings.Split(os.Getenv("VERIF_EXPORT_AT"), ",") {
-		if v, err := strconv.Atoi(strings.TrimSpace(f)); err == nil {
-			exportAt[v] = true
+	intSet := func(env string) map[int]bool {
+		m := map[int]bool{}
+		for _, f := range strings.Split(os.Getenv(env), ",") {
+			if v, err := strconv.Atoi(strings.TrimSpace(f)); err == nil {
+				m[v] = true
+			}
 		}
+		return m
 	}
+	exportAt, restartAt := intSet("VERIF_EXPORT_AT"), intSet("VERIF_RESTART_AT")
 	exportFileName := os.Getenv("VERIF_EXPORT_FILE")
 	importFileName := os.Getenv("VERIF_IMPORT_FILE")
 	wl := genWorkload(seed, nblocks)
+	if os.Getenv("VERIF_WORKLOAD") == "protorev-import" {
+		wl = probeProtorevImport()
+		nblocks = len(wl)
+	}
 	tw, err := tracelog.NewWriter(out)
 	if err != nil {
 		t.Fatal(err)
@@ -596,7 +1216,10 @@ func TestReplica(t *testing.T) {
 
 	var n *node
 	start := 0
-	role := "replica"
+	role := os.Getenv("VERIF_ROLE")
+	if role == "" {
+		role = "replica"
+	}
 	if importFileName != "" {
 		role = "importer"
 		bz, err := os.ReadFile(importFileName)
@@ -627,6 +1250,9 @@ func TestReplica(t *testing.T) {
 			return
 		}
 		n.tf = ef.TF
+		if n.tf == nil {
+			n.tf = []string{}
+		}
 		start = ef.Block
 		// module state as the freshly initialised node reports it (read from the genesis-time state)
 		mods := map[string]string{}
@@ -638,6 +1264,9 @@ func TestReplica(t *testing.T) {
 			dumpModule(fmt.Sprintf("imported-r%d-b%d", replica, start-1), k, bz)
 		}
 		tw.Emit(map[string]any{"e": "imported", "r": replica, "blk": start - 1, "mods": mods})
+		if p := os.Getenv("VERIF_DUMP_KV"); p != "" {
+			n.dumpKV(fmt.Sprintf("%s.imported.%d", p, start-1))
+		}
 	} else {
 		gen, err := os.ReadFile(os.Getenv("VERIF_GENESIS"))
 		if err != nil {
@@ -647,34 +1276,40 @@ func TestReplica(t *testing.T) {
 		if err != nil {
 			t.Fatal(err)
 		}
-		// test-only environment preparation, identical on every replica
+		// test-only environment preparation, identical on every replica, written into the genesis-time state:
+		// permissionless concentrated pools, and two fee-token pools (ids 1 and 2) so that transaction fees can be
+		// paid in uion and atom
 		n.SetupConcentratedLiquidityDenomsAndPoolCreation()
-		_ = banktestutil.FundAccount
+		for i, d := range []string{"uion", "atom"} {
+			m := balancer.NewMsgCreateBalancerPool(n.users[0].addr, balancer.PoolParams{SwapFee: osmomath.NewDecWithPrec(2, 3), ExitFee: osmomath.ZeroDec()},
+				[]balancer.PoolAsset{{Weight: osmomath.NewInt(1), Token: sdk.NewInt64Coin("uosmo", 2_000_000_000_000)},
+					{Weight: osmomath.NewInt(1), Token: sdk.NewInt64Coin(d, int64(2_000_000_000_000/(i+1)))}}, "")
+			id, err := n.App.PoolManagerKeeper.CreatePool(n.Ctx, m)
+			if err != nil || id != uint64(i+1) {
+				t.Fatalf("fee pool %s: id %d, %v", d, id, err)
+			}
+		}
+		if err := n.App.TxFeesKeeper.SetFeeTokens(n.Ctx, []txfeestypes.FeeToken{{Denom: "uion", PoolID: 1}, {Denom: "atom", PoolID: 2}}); err != nil {
+			t.Fatal(err)
+		}
 	}
 	tw.Emit(map[string]any{"e": "cfg", "r": replica, "role": role, "seed": seed, "blocks": nblocks, "start": start,
 		"gomaxprocs": os.Getenv("GOMAXPROCS"), "gogc": os.Getenv("GOGC")})
 
 	for bi := start; bi < len(wl); bi++ {
 		bl := wl[bi]
-		txs := []string{}
-		oks := 0
-		for _, o := range bl.Ops {
-			m := n.msgOf(o)
-			d, ok := n.deliver(m)
-			if os.Getenv("VERIF_DEBUG") != "" {
-				cc, _ := n.Ctx.CacheContext()
-				_, err := n.App.GetBaseApp().MsgServiceRouter().Handler(m)(cc, m)
-				fmt.Printf("DEBUG blk=%d op=%s ok=%v err=%v\n", bi, o.K, ok, err)
-			}
-			txs = append(txs, d)
-			if ok {
-				oks++
-			}
+		if role == "restarter" && restartAt[bi] && n.committed {
+			n.restart()
+			tw.Emit(map[string]any{"e": "restart", "r": replica, "role": role, "blk": bi})
 		}
-		h := n.Ctx.BlockHeight()
-		appHash, evHash := n.endBlock(time.Duration(bl.DtSec) * time.Second)
-		tw.Emit(map[string]any{"e": "block", "r": replica, "role": role, "blk": bi, "h": h, "app": appHash, "txs": txs,
-			"ev": evHash, "ntx": len(txs), "nok": oks})
+		txs := n.buildTxs(seed, bi, bl)
+		if role == "proposer" {
+			n.propose(txs)
+		}
+		h := n.height
+		br := n.runBlock(bi, bl, txs)
+		tw.Emit(map[string]any{"e": "block", "r": replica, "role": role, "blk": bi, "h": h, "app": br.appHash, "txs": br.txs, "ng": br.ng, "stale": br.stale, "backrun": br.backrun,
+			"txb": hashOf(txs...), "ev": br.evHash, "ntx": len(txs), "nok": br.oks, "nante": br.ante, "nmulti": br.multi, "nmultirev": br.multiRev})
 		if exportAt[bi] || bi == len(wl)-1 {
 			mods, appState, vals, height := n.exportModules(fmt.Sprintf("export-r%d-b%d", replica, bi))
 			names := []string{}
@@ -684,13 +1319,16 @@ func TestReplica(t *testing.T) {
 			sort.Strings(names)
 			tw.Emit(map[string]any{"e": "export", "r": replica, "role": role, "blk": bi, "mods": mods, "names": names, "final": bi == len(wl)-1,
 				"stats": n.stats()})
+			if p := os.Getenv("VERIF_DUMP_KV"); p != "" && exportAt[bi] {
+				n.dumpKV(fmt.Sprintf("%s.exported.%d", p, bi))
+			}
 			if exportAt[bi] && exportFileName != "" {
 				vbz := [][]byte{}
 				for _, vu := range vals {
 					bz, _ := vu.Marshal()
 					vbz = append(vbz, bz)
 				}
-				ef := exportFile{AppState: appState, Vals: vbz, Height: height, TimeUnix: n.Ctx.BlockTime().Unix(), Block: bi + 1, TF: n.tf}
+				ef := exportFile{AppState: appState, Vals: vbz, Height: height, TimeUnix: n.now.Unix(), Block: bi + 1, TF: n.tf}
 				bz, _ := json.Marshal(ef)
 				if err := os.WriteFile(fmt.Sprintf("%s.%d", exportFileName, bi), bz, 0o644); err != nil {
 					t.Fatal(err)
@@ -699,14 +1337,7 @@ func TestReplica(t *testing.T) {
 		}
 	}
 	if os.Getenv("VERIF_DEBUG") != "" {
-		cc, _ := n.Ctx.CacheContext()
-		err := n.App.IncentivesKeeper.AfterEpochEnd(cc, "day", 999)
-		fmt.Printf("DEBUG incentives AfterEpochEnd: %v\n", err)
-		for _, g := range n.App.IncentivesKeeper.GetGauges(cc) {
-			if !g.Coins.IsZero() {
-				fmt.Printf("DEBUG gauge %d perp=%v to=%v coins=%v distributed=%v filled=%d/%d start=%v\n", g.Id, g.IsPerpetual, g.DistributeTo, g.Coins, g.DistributedCoins, g.FilledEpochs, g.NumEpochsPaidOver, g.StartTime)
-			}
-		}
+		fmt.Printf("DEBUG stats %v\n", n.stats())
 	}
 	fmt.Printf("REPLICA %d role=%s events=%d\n", replica, role, tw.N)
 }
